@@ -44,7 +44,7 @@ func c03Rebuild(family, tier, choices string) (rep c03Replay, ok bool) {
 	mc.Replay(ch, func(c *mc.Ctx) {
 		switch family {
 		case "JM":
-			jc := buildJM(c, th)
+			jc := buildJM(c, th, true)
 			rep = c03Replay{family, jc.Op, jc.Case, 0}
 		case "PC":
 			pc := buildPC(c, th)
@@ -86,7 +86,7 @@ func c03ForEach(w *fw.W, fn func(family string, cs *world.Case, ans int, label s
 	stop := func() bool { return w.Expired() }
 	// (b) journal matrix
 	mc.Explore(c03Bound(w.Tier), func(c *mc.Ctx) {
-		jc := buildJM(c, th)
+		jc := buildJM(c, th, true)
 		if !w.Mine() {
 			return
 		}
